@@ -28,13 +28,43 @@ theorem ViewBounds.single {cfg : Cfg} {s : St} {d : Disk} {mf : LogFile MRec} {v
   rw [hv]
   exact h
 
+/-- the limbo facts under a step of a job that keeps its edit and outputs, the session and the tables: if the pc
+    was one of the retry of a commit, it still is; the edit is not committed by the step -/
+theorem LimboOK.job_pc {s : St} {d d' : Disk} (h : LimboOK s d) {j : Job} (hj : s.job = some j) (j' : Job) (nf' : Nat)
+    (he : j'.edit = j.edit) (ho : j'.outs = j.outs) (hret : j.pc.retry = true → j'.pc.retry = true)
+    (hbc : j'.edit = none ∨ j'.pc.beforeCommit = true) (et : d'.tables = d.tables) (hnf : s.nextFile ≤ nf') :
+    LimboOK { s with job := some j', nextFile := nf' } d' := by
+  unfold LimboOK at h ⊢
+  show Holds' s.limbo _
+  refine Holds'.imp (o := s.limbo) h (fun u hu => ?_)
+  obtain ⟨a, b, c, e, f, g, k0, k⟩ := hu
+  have htg : ∀ t, tableGrpsOf d' t = tableGrpsOf d t := fun t => by unfold tableGrpsOf; rw [et]
+  refine ⟨a, b, c, e, f, fun t ht => ⟨(g t ht).1, by rw [htg]; exact (g t ht).2⟩, hbc, ?_⟩
+  rcases k with k | k
+  · left
+    rw [hj] at k
+    obtain ⟨k1, k2⟩ : j.edit = some u ∧ j.pc.retry = true := k
+    exact ⟨by rw [he]; exact k1, hret k2⟩
+  · right
+    obtain ⟨k1, k2, k3⟩ := k
+    refine ⟨k1, k2, k3.imp (fun t ht => ⟨ht.1, Nat.lt_of_lt_of_le ht.2.1 hnf, ?_⟩)⟩
+    rw [et]
+    refine ht.2.2.imp (fun tf htf => ⟨htf.1, htf.2.1, htf.2.2.imp (fun g0 hg0 => ?_)⟩)
+    obtain ⟨m1, m2, m4, m5, m6, m7⟩ := hg0
+    refine ⟨m1, m2, m4, m5, m6, ?_⟩
+    rw [hj] at m7
+    show ∀ o ∈ j'.outs, t < o.1
+    rw [ho]
+    exact m7
+
 /-- a job step that touches only manifests other than the one `CURRENT` names -/
 theorem Inv.other_manifest_step {cfg : Cfg} {s : St} {d : Disk} (h : Inv cfg s d) {j : Job} (hj : s.job = some j)
     (hnr : ∀ m, j.pc ≠ .rotRemove m) (hbcj : j.pc.beforeCommit = true)
     (ms : Files (LogFile MRec)) (hms : ∀ m, d.current = some m → lookup ms m = lookup d.manifests m)
     (hnd : ms.Pairwise (fun p q => p.1 ≠ q.1)) (j' : Job) (nf' : Nat) (hnf : s.nextFile ≤ nf')
     (hpc' : ∀ m, j'.pc ≠ .rotRemove m) (hk : j'.kind = j.kind)
-    (hjob : JobOK cfg { s with job := some j', nextFile := nf' } { d with manifests := ms } j') :
+    (hjob : JobOK cfg { s with job := some j', nextFile := nf' } { d with manifests := ms } j')
+    (hlimbo : LimboOK { s with job := some j', nextFile := nf' } { d with manifests := ms }) :
     Inv cfg { s with job := some j', nextFile := nf' } { d with manifests := ms } := by
   have hcm : curManifest { d with manifests := ms } = curManifest d := curManifest_other hms
   have hph := h.not_crashed hj
@@ -44,6 +74,7 @@ theorem Inv.other_manifest_step {cfg : Cfg} {s : St} {d : Disk} (h : Inv cfg s d
     (fun j0 h0 => by
       rw [hj] at h0; cases h0
       exact ⟨hk, fun _ hb => by rw [hbcj] at hb; cases hb⟩)
+    (fun _ => hlimbo)
   constructor
   · exact h.disk.frame (d' := { d with manifests := ms }) hcm rfl (fun _ _ _ _ _ _ _ _ => rfl) h.disk.tnodup hnd
       (fun _ hx => hx) (fun _ hx => hx)
@@ -62,7 +93,7 @@ theorem upd_eq (s : St) (j' : Job) (nf' : Nat) :
 
 /-- the manifest clause of the early pcs as a fact about the current manifest -/
 theorem JobOK.settled_early {cfg : Cfg} {s : St} {d : Disk} {j : Job} (h : JobOK cfg s d j) {e : MRec}
-    (he : j.edit = some e) (hpc : j.pc.early = true) : Settled cfg s d (Mirror s) := by
+    (he : j.edit = some e) (hpc : j.pc.early = true) : Settled cfg s d (MirrorL s) := by
   have := h.manifest
   unfold JobManifestOK at this
   rw [he] at this
@@ -90,6 +121,11 @@ theorem inv_job_append_rotate {cfg : Cfg} {s : St} {d : Disk} (h : Inv cfg s d) 
   let j' : Job := { j with pc := .rotWrite s.nextFile }
   apply h.other_manifest_step hj hnr (by rw [hpc]; rfl) _ hms (nodup_set h.disk.mnodup _ _) j' (s.nextFile + 1)
     (Nat.le_succ _) (by intro m hm; cases hm) rfl
+  case hlimbo =>
+    rcases hp : s.phase with _ | _ | _
+    · exact absurd hp (h.not_crashed hj)
+    · exact LimboOK.of_none (h.limbo_none_of_recovering (by rw [hp]; decide))
+    · exact (h.run hp).limbo.job_pc hj j' _ rfl rfl (fun _ => rfl) (Or.inr rfl) rfl (Nat.le_succ _)
   rw [upd_eq]
   apply JobOK.late_next (d' := { d with manifests := d.manifests.set s.nextFile {} }) hok
     (by rw [hpc]; exact ⟨(by intro x; cases x), rfl⟩) j' ⟨rfl, rfl, rfl, rfl, rfl⟩ ⟨(by intro x; cases x), rfl⟩
@@ -104,8 +140,7 @@ theorem inv_job_append_rotate {cfg : Cfg} {s : St} {d : Disk} (h : Inv cfg s d) 
     · unfold Settled lastView at hsett ⊢
       rw [curManifest_other hms]
       exact hsett
-    · intro hc
-      exact hne _ hc.symm rfl
+    · exact ⟨fun hc => hne _ hc.symm rfl, hcl⟩
     · show lookup (d.manifests.set s.nextFile {}) s.nextFile = _
       rw [lookup_set, if_pos rfl]
   · intro _
@@ -123,8 +158,8 @@ theorem inv_job_append_rotate {cfg : Cfg} {s : St} {d : Disk} (h : Inv cfg s d) 
 /-- the facts of a rotation pc: the new manifest `m` is not the current one -/
 theorem JobOK.rot_facts {cfg : Cfg} {s : St} {d : Disk} {j : Job} (h : JobOK cfg s d j) {e : MRec}
     (he : j.edit = some e) {m : Nat} {P : Prop}
-    (hman : JobManifest cfg s d e j.pc = (Settled cfg s d (Mirror s) ∧ some m ≠ d.current ∧ m < s.nextFile ∧ P)) :
-    Settled cfg s d (Mirror s) ∧ some m ≠ d.current ∧ m < s.nextFile ∧ P := by
+    (hman : JobManifest cfg s d e j.pc = (Settled cfg s d (MirrorL s) ∧ (some m ≠ d.current ∧ Holds d.current (· < m)) ∧ m < s.nextFile ∧ P)) :
+    Settled cfg s d (MirrorL s) ∧ (some m ≠ d.current ∧ Holds d.current (· < m)) ∧ m < s.nextFile ∧ P := by
   have := h.manifest
   unfold JobManifestOK at this
   rw [he] at this
@@ -142,18 +177,12 @@ theorem inv_job_rotWrite {cfg : Cfg} (hg : cfg.Good) {s : St} {d : Disk} (h : In
   simp only [Option.some.injEq, Prod.mk.injEq] at hs
   obtain ⟨rfl, rfl⟩ := hs
   have hnr : ∀ m, j.pc ≠ .rotRemove m := by rw [hpc]; intro m hm; cases hm
-  obtain ⟨hsett, hmc, hmlt, hlk⟩ := hok.rot_facts he (m := m) (P := lookup d.manifests m = some ⟨[], []⟩)
+  obtain ⟨hsett, ⟨hmc, hcm'⟩, hmlt, hlk⟩ := hok.rot_facts he (m := m) (P := lookup d.manifests m = some ⟨[], []⟩)
     (by rw [hpc]; rfl)
   -- the numbers the snapshot record fixes: every table of the new view and its journal lie below `nextFile`
   have hnums : (∀ t ∈ applyEdit s.live e, t < s.nextFile) ∧ e.jn.getD s.stJn < s.nextFile := by
-    obtain ⟨mf, v0, v, hparts, hlv, hvl, hed, hvok', _⟩ := h.commit_view hj he (by rw [hpc]; rfl)
+    obtain ⟨mf, v0, hparts, hvok', _⟩ := h.commit_view' hj he (by rw [hpc]; rfl)
       (by rw [hpc]; exact ⟨(by intro x; cases x), rfl⟩)
-    have hm := hsett
-    unfold Settled at hm
-    have hm := (holds_some hm hparts.cur).2
-    rw [hlv] at hm
-    obtain ⟨m1, m2, _⟩ : Mirror s v := hm
-    rw [← m1, ← m2]
     exact ⟨fun t ht => (hvok'.tables t ht).1, hvok'.jnf⟩
   have hms : ∀ c, d.current = some c →
       lookup (d.manifests.modify m (·.append (snapshotRec cfg s e))) c = lookup d.manifests c := by
@@ -163,6 +192,11 @@ theorem inv_job_rotWrite {cfg : Cfg} (hg : cfg.Good) {s : St} {d : Disk} (h : In
   have := h.other_manifest_step hj hnr (by rw [hpc]; rfl) _ hms
     (pairwise_keys_modify (R := (· ≠ ·)) _ _ h.disk.mnodup) j' s.nextFile (Nat.le_refl _) (by intro x hx; cases hx) rfl
   apply this
+  case hlimbo =>
+    rcases hp : s.phase with _ | _ | _
+    · exact absurd hp (h.not_crashed hj)
+    · exact LimboOK.of_none (h.limbo_none_of_recovering (by rw [hp]; decide))
+    · exact (h.run hp).limbo.job_pc hj j' _ rfl rfl (fun _ => rfl) (Or.inr rfl) rfl (Nat.le_refl _)
   rw [upd_eq]
   apply JobOK.late_next (d' := { d with manifests := d.manifests.modify m (·.append (snapshotRec cfg s e)) }) hok
     (by rw [hpc]; exact ⟨(by intro x; cases x), rfl⟩) j' ⟨rfl, rfl, rfl, rfl, rfl⟩ ⟨(by intro x; cases x), rfl⟩
@@ -173,7 +207,7 @@ theorem inv_job_rotWrite {cfg : Cfg} (hg : cfg.Good) {s : St} {d : Disk} (h : In
       | none => _
     rw [he]
     simp only [JobManifest]
-    refine ⟨?_, hmc, hmlt, ?_⟩
+    refine ⟨?_, ⟨hmc, hcm'⟩, hmlt, ?_⟩
     · unfold Settled lastView at hsett ⊢
       rw [curManifest_other hms]
       exact hsett
@@ -205,7 +239,7 @@ theorem inv_job_rotSync {cfg : Cfg} (hg : cfg.Good) {s : St} {d : Disk} (h : Inv
   simp only [Option.some.injEq, Prod.mk.injEq] at hs
   obtain ⟨rfl, rfl⟩ := hs
   have hnr : ∀ m, j.pc ≠ .rotRemove m := by rw [hpc]; intro m hm; cases hm
-  obtain ⟨hsett, hmc, hmlt, hlk⟩ := hok.rot_facts he (m := m)
+  obtain ⟨hsett, ⟨hmc, hcm'⟩, hmlt, hlk⟩ := hok.rot_facts he (m := m)
     (P := Holds (lookup d.manifests m) fun mf => Holds mf.unsynced.head? fun r =>
       mf = ⟨[], [{ snapshotRec cfg s e with nf := r.nf }]⟩ ∧ m < r.nf ∧ r.nf ≤ s.nextFile ∧
       (∀ t ∈ applyEdit s.live e, t < r.nf) ∧ e.jn.getD s.stJn < r.nf) (by rw [hpc]; rfl)
@@ -220,6 +254,11 @@ theorem inv_job_rotSync {cfg : Cfg} (hg : cfg.Good) {s : St} {d : Disk} (h : Inv
   have := h.other_manifest_step hj hnr (by rw [hpc]; rfl) _ hms
     (pairwise_keys_modify (R := (· ≠ ·)) _ _ h.disk.mnodup) j' s.nextFile (Nat.le_refl _) (by intro x hx; cases hx) rfl
   apply this
+  case hlimbo =>
+    rcases hp : s.phase with _ | _ | _
+    · exact absurd hp (h.not_crashed hj)
+    · exact LimboOK.of_none (h.limbo_none_of_recovering (by rw [hp]; decide))
+    · exact (h.run hp).limbo.job_pc hj j' _ rfl rfl (fun _ => rfl) (Or.inr rfl) rfl (Nat.le_refl _)
   rw [upd_eq]
   apply JobOK.late_next (d' := { d with manifests := d.manifests.modify m (·.sync) }) hok
     (by rw [hpc]; exact ⟨(by intro x; cases x), rfl⟩) j' ⟨rfl, rfl, rfl, rfl, rfl⟩ ⟨(by intro x; cases x), rfl⟩
@@ -230,7 +269,7 @@ theorem inv_job_rotSync {cfg : Cfg} (hg : cfg.Good) {s : St} {d : Disk} (h : Inv
       | none => _
     rw [he]
     simp only [JobManifest]
-    refine ⟨?_, hmc, hmlt, ?_⟩
+    refine ⟨?_, ⟨hmc, hcm'⟩, hmlt, ?_⟩
     · unfold Settled lastView at hsett ⊢
       rw [curManifest_other hms]
       exact hsett
